@@ -209,6 +209,21 @@ func inFiles(files []*ast.File, pos, end token.Pos) bool {
 	return false
 }
 
+func embeddedName(t ast.Expr) *ast.Ident {
+	for {
+		switch v := t.(type) {
+		case *ast.Ident:
+			return v
+		case *ast.StarExpr:
+			t = v.X
+		case *ast.SelectorExpr:
+			return v.Sel
+		default:
+			return nil
+		}
+	}
+}
+
 func exprText(e ast.Expr) string {
 	if id, ok := e.(*ast.Ident); ok {
 		return id.Name
@@ -293,9 +308,19 @@ func identContexts(files []*ast.File) map[*ast.Ident]string {
 				for _, id := range v.Names {
 					res[id] = "field-or-param"
 				}
+				if len(v.Names) == 0 {
+					if id := embeddedName(v.Type); id != nil {
+						res[id] = "embedded-field"
+					}
+				}
 			case *ast.ValueSpec:
 				for _, id := range v.Names {
 					res[id] = "valuespec"
+				}
+				if len(v.Names) == 0 { // class-file field block: embedded field
+					if id := embeddedName(v.Type); id != nil {
+						res[id] = "embedded-field"
+					}
 				}
 			case *ast.TypeSpec:
 				res[v.Name] = "typespec"
@@ -500,21 +525,18 @@ func compareWithGo(o *vh.Out, g *goChecked, c *checked, caseLine string) {
 	}
 	_ = xtf
 	// XGo identifiers by offset
-	type rec struct {
-		obj  types.Object
-		role string
-	}
-	xids := map[int]rec{}
+	// XGo identifiers by offset, one table per map (an embedded field's identifier is in BOTH maps:
+	// "Defs returns the field *Var it defines", "Uses returns the *TypeName it denotes")
+	xdefs := map[int]types.Object{}
 	for id, obj := range c.info.Defs {
 		if obj != nil {
-			xids[off(id.Pos())] = rec{obj, "def"}
+			xdefs[off(id.Pos())] = obj
 		}
 	}
+	xuses := map[int]types.Object{}
 	for id, obj := range c.info.Uses {
 		if obj != nil {
-			if _, dup := xids[off(id.Pos())]; !dup {
-				xids[off(id.Pos())] = rec{obj, "use"}
-			}
+			xuses[off(id.Pos())] = obj
 		}
 	}
 	// the declaration of an object = the identifier whose Defs entry it is (independent of Object.Pos)
@@ -536,29 +558,33 @@ func compareWithGo(o *vh.Out, g *goChecked, c *checked, caseLine string) {
 			return
 		}
 		o.Count("go_idents")
-		x, ok := xids[off(id.Pos())]
+		table, other := xdefs, xuses
+		if role == "use" {
+			table, other = xuses, xdefs
+		}
+		xobj, ok := table[off(id.Pos())]
 		kind := objKind(gobj)
 		if !ok {
+			if _, swapped := other[off(id.Pos())]; swapped {
+				o.Count("ident_recorded_in_other_map_only")
+			}
 			o.Count("ident_missing_" + role + "_" + kind)
 			o.Oracle("ident-not-recorded:"+role+":"+kind, caseLine,
 				fmt.Sprintf("identifier %s at offset %d: go/types has %s %s (%s), typesutil records nothing", id.Name, off(id.Pos()), role, kind, typeStr(gobj.Type())))
 			return
 		}
-		if x.role != role {
-			o.Oracle("ident-role-differs:"+kind, caseLine, fmt.Sprintf("identifier %s at offset %d: go/types %s, typesutil %s", id.Name, off(id.Pos()), role, x.role))
-		}
-		if k2 := objKind(x.obj); k2 != kind {
+		if k2 := objKind(xobj); k2 != kind {
 			o.Oracle("ident-object-differs:kind:"+kind, caseLine, fmt.Sprintf("identifier %s at offset %d: go/types %s, typesutil %s", id.Name, off(id.Pos()), kind, k2))
 			return
 		}
-		if x.obj.Name() != gobj.Name() {
-			o.Oracle("ident-object-differs:name:"+kind, caseLine, fmt.Sprintf("identifier %s at offset %d: go/types object %s, typesutil object %s", id.Name, off(id.Pos()), gobj.Name(), x.obj.Name()))
+		if xobj.Name() != gobj.Name() {
+			o.Oracle("ident-object-differs:name:"+kind, caseLine, fmt.Sprintf("identifier %s at offset %d: go/types object %s, typesutil object %s", id.Name, off(id.Pos()), gobj.Name(), xobj.Name()))
 		}
-		if kind != "PkgName" && typeStr(x.obj.Type()) != typeStr(gobj.Type()) {
-			o.Oracle("ident-object-differs:type:"+kind, caseLine, fmt.Sprintf("identifier %s at offset %d: go/types type %s, typesutil type %s", id.Name, off(id.Pos()), typeStr(gobj.Type()), typeStr(x.obj.Type())))
+		if kind != "PkgName" && typeStr(xobj.Type()) != typeStr(gobj.Type()) {
+			o.Oracle("ident-object-differs:type:"+kind, caseLine, fmt.Sprintf("identifier %s at offset %d: go/types type %s, typesutil type %s", id.Name, off(id.Pos()), typeStr(gobj.Type()), typeStr(xobj.Type())))
 		}
 		if gp, ok1 := gdef[gobj]; ok1 {
-			if xp, ok2 := xdef[x.obj]; ok2 && gp != xp {
+			if xp, ok2 := xdef[xobj]; ok2 && gp != xp {
 				suffix := ""
 				if selfInit[id] {
 					suffix = ":var-initialiser-names-outer-variable"
@@ -568,7 +594,7 @@ func compareWithGo(o *vh.Out, g *goChecked, c *checked, caseLine string) {
 				o.Count("decl_of_object_not_in_defs")
 			}
 		}
-		if off(gobj.Pos()) != off(x.obj.Pos()) && gobj.Pkg() != nil && gobj.Pkg().Path() == "main" {
+		if off(gobj.Pos()) != off(xobj.Pos()) && gobj.Pkg() != nil && gobj.Pkg().Path() == "main" {
 			o.Count("object_pos_differs_from_gotypes")
 		}
 	}
